@@ -32,7 +32,9 @@
 #define NOPS (NCODECS + NEXTRA_OPS)
 #define MAXT 16
 #define INLEN 700
+#define BIGN 10300 /* one shared input above 10000 elements: the sampled-uniqueness path of the adaptive analysis */
 
+static uint64_t *BIG;
 static uint64_t *IN[NIN][3];  /* [input][domain flavour]: 0 any, 1 sorted, 2 >=1 ; read-only after setup */
 static size_t INN[NIN];
 static double *DIN[NIN];
@@ -48,6 +50,10 @@ static int NT = 4, ROUNDS = 10;
 static pthread_barrier_t BAR;
 
 static const uint64_t *input_for(const codec_t *c, int in, size_t *n) {
+    if (in == 0 && !strcmp(c->name, "adaptive.auto")) {
+        *n = BIGN;
+        return BIG;
+    }
     size_t len = INN[in];
     if (c->maxlen && len > c->maxlen) len = c->maxlen;
     if (c->domain == DOM_GROUP && len > 64) len = 64;
@@ -201,8 +207,8 @@ static void *worker(void *p) {
     targ_t *t = p;
     rng_t r;
     rng_seed(&r, t->seed);
-    uint8_t *scratch = malloc(scratch_size(INLEN) + 8192);
-    uint64_t *outbuf = malloc((INLEN + 8) * 8);
+    uint8_t *scratch = malloc(scratch_size(BIGN) + 8192);
+    uint64_t *outbuf = malloc((BIGN + 8) * 8);
     int order[NOPS];
     for (int round = 0; round < ROUNDS; round++) {
         for (int i = 0; i < (int)NOPS; i++) order[i] = i;
@@ -277,14 +283,16 @@ int main(int argc, char **argv) {
         SHARED_DICT[i] = varintDictCreate();
         varintDictBuild(SHARED_DICT[i], IN[i][0], INN[i]);
     }
+    BIG = malloc(BIGN * 8);
+    for (size_t k = 0; k < BIGN; k++) BIG[k] = (rng_next(&r) % 1400) * 977 + 5; /* unique ratio near the 0.15 guard, unsorted */
     for (int op = 0; op < (int)NOPS; op++) {
         static const char *const en[NEXTRA_OPS] = {"scalar.tagged+external", "scalar.chained", "scalar.split-macros", "scalar.inplace-add", "float", "dict.shared-const", "packed.private", "bitstream.private"};
         OPNAME[op] = op < (int)NCODECS ? CODECS[op].name : en[op - (int)NCODECS];
     }
     /* sequential reference results, before any thread exists */
     {
-        uint8_t *scratch = malloc(scratch_size(INLEN) + 8192);
-        uint64_t *outbuf = malloc((INLEN + 8) * 8);
+        uint8_t *scratch = malloc(scratch_size(BIGN) + 8192);
+        uint64_t *outbuf = malloc((BIGN + 8) * 8);
         for (int op = 0; op < (int)NOPS; op++)
             for (int in = 0; in < NIN; in++) REF[op][in] = run_op(op, in, scratch, outbuf);
         free(scratch);
